@@ -2,6 +2,7 @@
 from __future__ import annotations
 
 import ast
+import os
 import re
 
 from .. import cxx, dl, l2, lit, pe
@@ -255,90 +256,114 @@ def _anim_struct(em):
     return fresh, enum
 
 
-def rule_life(cx, em, hm, fns, st_tbl, tk_tbl, snippet_line, host_names):
-    """life cycle decided by evaluation: firmware helpers (C semantics, cell model of the display) and the host LCD (checker's
-    interpreter) run every style on texts from empty to longer than the row, widths 8/16, both rows, looping or not, one
-    step per tick"""
+_LIFE_CTX = {}
+
+
+def _life_task(task):
+    """one (style, cols, row, loop) cell of C18-LIFE, every text length: -> [("ok",) | ("fail", key, side, message) | ("error", message)]"""
     import itertools
     from .. import ckern
     from . import c04, c17
-    r = cx.rule("C18-LIFE", "for every style x width 8/16 x row x text length (0 .. wider than the row) x loop, stepping once per tick: every frame stays in the animation's row and inside the display width (firmware: cell model; host: buffer rows keep their width, the other row is untouched); a non-looping animation is inactive after at most 4*(len+cols)+8 steps and stays inactive, a looping one is still active after 6*(len+cols)+20 steps; the host accepts every animation name of the table and never raises", floor=300, exhaustive=True)
+    style, cols, row, loop = task
+    em, hm, fns, st_tbl, tk_tbl = (_LIFE_CTX[k] for k in ("em", "hm", "fns", "st_tbl", "tk_tbl"))
     fresh, enum = _anim_struct(em)
-    n_bad = 0
-
-    def fail(key, where, msg):
-        nonlocal n_bad
-        n_bad += 1
-        if n_bad <= 4:
-            r.fail(key, where, msg)
+    out = []
+    sfn, tfn = st_tbl.get(style), tk_tbl.get(style)
+    for tlen in (0, 1, 3, cols - 1, cols, cols + 1, cols + 9):
+        text = "abcdefghijklmnopqrstuvwxyz0123456789"[:tlen]
+        bound = 4 * (tlen + cols) + 8
+        steps = (6 * (tlen + cols) + 20) if loop else bound + 6
+        label = f"{style} on {cols}x2, row {row}, text of {tlen} characters, loop={loop}"
+        # firmware
+        if sfn in fns and tfn in fns:
+            st = fresh()
+            now = [50]
+            k = ckern.CallKern(fns, env={"st": st, "lcdobj": 0}, consts=enum, max_steps=4_000_000)
+            k.call_hooks["millis"] = lambda a_, _n=now: _n[0]
+            fw_active = []
+            try:
+                k.ev(("call", sfn, [("var", "st"), ("var", "lcdobj"), ("lit", cols), ("lit", row), ("lit", '"' + text + '"'), ("lit", 10), ("lit", loop)]))
+                for _i in range(steps):
+                    now[0] += 10
+                    k.ev(("call", tfn, [("var", "st"), ("var", "lcdobj"), ("lit", cols)]))
+                    fw_active.append(bool(st.get("active")))
+            except ckern.KernUnsupported as e:
+                return [("error", f"animation helpers of style {style} left the evaluable subset: {e}")]
+            d = c17.Display(cols, 2, ["." * cols, "." * cols])
+            d.feed(k.events)
+            if d.outside or d.rows_text()[1 - row] != "." * cols:
+                out.append(("fail", f"life[{style}]/firmware-frame-inside-row", "fw", f"{label}: the firmware " + (f"prints outside the display at {d.outside[:2]}" if d.outside else "draws into the other row")))
+            elif any(nm_ in ("delay", "delayMicroseconds", "pulseIn") for nm_, _a in k.events):
+                out.append(("fail", f"life[{style}]/firmware-never-waits", "fw", f"{label}: the firmware helpers call a blocking wait"))
+            elif loop and not all(fw_active):
+                out.append(("fail", f"life[{style}]/firmware-looping-never-finishes", "fw", f"{label}: the looping firmware animation is inactive after {fw_active.index(False) + 1} steps"))
+            elif not loop and (any(fw_active[bound:]) or any(b_ and not a_ for a_, b_ in zip(fw_active, fw_active[1:]))):
+                out.append(("fail", f"life[{style}]/firmware-finishes-within-linear-bound", "fw", f"{label}: the firmware animation is {'still active after ' + str(bound) + ' steps' if any(fw_active[bound:]) else 're-activated after it finished'}"))
+            else:
+                out.append(("ok",))
+        # host
+        o = c04.host_object(hm, "LCD", rs=12, en=11, d4=5, d5=4, d6=3, d7=2, cols=cols, rows=2)
+        before_other = o.buffer[1 - row]
+        try:
+            res = dl.Interp(hm).call(hm.func("LCD.animate"), [o, style, row, text], {"speed_ms": 10, "loop": loop})
+            if res.kind != "return":
+                out.append(("fail", f"life[{style}]/host-animate-accepts", "host-animate", f"{label}: host animate() raises {res.value}"))
+                continue
+            host_active, t_, bad = [], 50, None
+            for _i in range(steps):
+                t_ += 10
+                res = dl.Interp(hm).call(hm.func("LCD.tick"), [o, t_])
+                if res.kind != "return":
+                    bad = f"host tick() raises {res.value} at step {_i + 1}"
+                    break
+                if [len(x) for x in o.buffer] != [cols, cols] or o.buffer[1 - row] != before_other:
+                    bad = f"after step {_i + 1} the host buffer is {o.buffer}: rows must keep {cols} cells and row {1 - row} must stay untouched"
+                    break
+                host_active.append(any(getattr(v_, "active", False) for v_ in o.animations.values()))
+        except dl.Unsupported as e:
+            return [("error", f"host animate/tick left the evaluable subset: {e}")]
+        if bad:
+            out.append(("fail", f"life[{style}]/host-frame-inside-row", "host", f"{label}: {bad}"))
+        elif loop and not all(host_active):
+            out.append(("fail", f"life[{style}]/host-looping-never-finishes", "host", f"{label}: the looping host animation is inactive after {host_active.index(False) + 1} steps"))
+        elif not loop and (any(host_active[bound:]) or any(b_ and not a_ for a_, b_ in zip(host_active, host_active[1:]))):
+            out.append(("fail", f"life[{style}]/host-finishes-within-linear-bound", "host", f"{label}: the host animation is {'still active after ' + str(bound) + ' steps' if any(host_active[bound:]) else 're-activated after it finished'}"))
         else:
-            r.stat.obligations += 1
-            r.stat.failed += 1
+            out.append(("ok",))
+    return out
 
-    for style in sorted(set(st_tbl) | set(host_names)):
-        sfn, tfn = st_tbl.get(style), tk_tbl.get(style)
-        for cols, row, loop in itertools.product((8, 16), (0, 1), (True, False)):
-            for tlen in (0, 1, 3, cols - 1, cols, cols + 1, cols + 9):
-                text = "abcdefghijklmnopqrstuvwxyz0123456789"[:tlen]
-                bound = 4 * (tlen + cols) + 8
-                steps = (6 * (tlen + cols) + 20) if loop else bound + 6
-                label = f"{style} on {cols}x2, row {row}, text of {tlen} characters, loop={loop}"
-                # firmware
-                if sfn in fns and tfn in fns:
-                    st = fresh()
-                    now = [50]
-                    k = ckern.CallKern(fns, env={"st": st, "lcdobj": 0}, consts=enum, max_steps=4_000_000)
-                    k.call_hooks["millis"] = lambda a_, _n=now: _n[0]
-                    fw_active = []
-                    try:
-                        k.ev(("call", sfn, [("var", "st"), ("var", "lcdobj"), ("lit", cols), ("lit", row), ("lit", '"' + text + '"'), ("lit", 10), ("lit", loop)]))
-                        for _i in range(steps):
-                            now[0] += 10
-                            k.ev(("call", tfn, [("var", "st"), ("var", "lcdobj"), ("lit", cols)]))
-                            fw_active.append(bool(st.get("active")))
-                    except ckern.KernUnsupported as e:
-                        raise AnalysisError(f"animation helpers of style {style} left the evaluable subset: {e}")
-                    d = c17.Display(cols, 2, ["." * cols, "." * cols])
-                    d.feed(k.events)
-                    if d.outside or d.rows_text()[1 - row] != "." * cols:
-                        fail(f"life[{style}]/firmware-frame-inside-row", (em.rel, snippet_line), f"{label}: the firmware " + (f"prints outside the display at {d.outside[:2]}" if d.outside else "draws into the other row"))
-                    elif any(nm_ in ("delay", "delayMicroseconds", "pulseIn") for nm_, _a in k.events):
-                        fail(f"life[{style}]/firmware-never-waits", (em.rel, snippet_line), f"{label}: the firmware helpers call a blocking wait")
-                    elif loop and not all(fw_active):
-                        fail(f"life[{style}]/firmware-looping-never-finishes", (em.rel, snippet_line), f"{label}: the looping firmware animation is inactive after {fw_active.index(False) + 1} steps")
-                    elif not loop and (any(fw_active[bound:]) or any(b_ and not a_ for a_, b_ in zip(fw_active, fw_active[1:]))):
-                        fail(f"life[{style}]/firmware-finishes-within-linear-bound", (em.rel, snippet_line), f"{label}: the firmware animation is {'still active after ' + str(bound) + ' steps' if any(fw_active[bound:]) else 're-activated after it finished'}")
-                    else:
-                        r.ok(None)
-                # host
-                o = c04.host_object(hm, "LCD", rs=12, en=11, d4=5, d5=4, d6=3, d7=2, cols=cols, rows=2)
-                before_other = o.buffer[1 - row]
-                try:
-                    out = dl.Interp(hm).call(hm.func("LCD.animate"), [o, style, row, text], {"speed_ms": 10, "loop": loop})
-                    if out.kind != "return":
-                        fail(f"life[{style}]/host-animate-accepts", (hm, hm.func("LCD.animate")), f"{label}: host animate() raises {out.value}")
-                        continue
-                    host_active, t_, bad = [], 50, None
-                    for _i in range(steps):
-                        t_ += 10
-                        out = dl.Interp(hm).call(hm.func("LCD.tick"), [o, t_])
-                        if out.kind != "return":
-                            bad = f"host tick() raises {out.value} at step {_i + 1}"
-                            break
-                        if [len(x) for x in o.buffer] != [cols, cols] or o.buffer[1 - row] != before_other:
-                            bad = f"after step {_i + 1} the host buffer is {o.buffer}: rows must keep {cols} cells and row {1 - row} must stay untouched"
-                            break
-                        host_active.append(any(getattr(v_, "active", False) for v_ in o.animations.values()))
-                except dl.Unsupported as e:
-                    raise AnalysisError(f"host animate/tick left the evaluable subset: {e}")
-                if bad:
-                    fail(f"life[{style}]/host-frame-inside-row", (hm, hm.func("LCD.tick")), f"{label}: {bad}")
-                elif loop and not all(host_active):
-                    fail(f"life[{style}]/host-looping-never-finishes", (hm, hm.func("LCD.tick")), f"{label}: the looping host animation is inactive after {host_active.index(False) + 1} steps")
-                elif not loop and (any(host_active[bound:]) or any(b_ and not a_ for a_, b_ in zip(host_active, host_active[1:]))):
-                    fail(f"life[{style}]/host-finishes-within-linear-bound", (hm, hm.func("LCD.tick")), f"{label}: the host animation is {'still active after ' + str(bound) + ' steps' if any(host_active[bound:]) else 're-activated after it finished'}")
-                else:
-                    r.ok(None)
+
+def rule_life(cx, em, hm, fns, st_tbl, tk_tbl, snippet_line, host_names):
+    """life cycle decided by evaluation: firmware helpers (C semantics, cell model of the display) and the host LCD (checker's
+    interpreter) run every style on texts from empty to longer than the row, widths 8/16, both rows, looping or not, one
+    step per tick (cells of the grid are evaluated in worker processes)"""
+    import concurrent.futures as cf
+    import itertools
+    import multiprocessing
+    r = cx.rule("C18-LIFE", "for every style x width 8/16 x row x text length (0 .. wider than the row) x loop, stepping once per tick: every frame stays in the animation's row and inside the display width (firmware: cell model; host: buffer rows keep their width, the other row is untouched); a non-looping animation is inactive after at most 4*(len+cols)+8 steps and stays inactive, a looping one is still active after 6*(len+cols)+20 steps; the host accepts every animation name of the table and never raises", floor=300, exhaustive=True)
+    _LIFE_CTX.update({"em": em, "hm": hm, "fns": fns, "st_tbl": st_tbl, "tk_tbl": tk_tbl})
+    tasks = [(style, cols, row, loop) for style in sorted(set(st_tbl) | set(host_names)) for cols, row, loop in itertools.product((8, 16), (0, 1), (True, False))]
+    try:
+        with cf.ProcessPoolExecutor(max_workers=min(8, os.cpu_count() or 2), mp_context=multiprocessing.get_context("fork")) as ex:
+            parts = list(ex.map(_life_task, tasks))
+    except (OSError, ValueError, cf.process.BrokenProcessPool):
+        parts = [_life_task(t_) for t_ in tasks]
+    n_bad = 0
+    for part in parts:
+        for item in part:
+            if item[0] == "error":
+                raise AnalysisError(item[1])
+            if item[0] == "ok":
+                r.ok(None)
+                continue
+            _k, key, side, msg = item
+            n_bad += 1
+            if n_bad <= 4:
+                where = (em.rel, snippet_line) if side == "fw" else (hm, hm.func("LCD.animate" if side == "host-animate" else "LCD.tick"))
+                r.fail(key, where, msg)
+            else:
+                r.stat.obligations += 1
+                r.stat.failed += 1
     return r
 
 
